@@ -181,7 +181,8 @@ Definition update_widths (w : widths) (d : data) : res widths :=
 
 Definition sum_widths (w : widths) : nat := fold_right (fun kv n => snd kv + n) O w.
 
-(** [resize_widths_to_fit]: only the columns of the table survive *)
+(** [resize_widths_to_fit]: only the columns of the table survive; the remaining width is shared
+    among the columns still to place (fix b76788c: the divisor is never zero) *)
 Fixpoint resize_loop (cols : list str) (w : widths) (i : nat) (total : nat) (remaining : nat) : widths :=
   match cols with
   | [] => []
@@ -194,7 +195,7 @@ Fixpoint resize_loop (cols : list str) (w : widths) (i : nat) (total : nat) (rem
 
 Definition resize_widths (w : widths) (cols : list str) (max_width : nat) : widths :=
   if Nat.leb (sum_widths w) max_width then w
-  else fold_left (fun acc kv => put (fst kv) (snd kv) acc) (resize_loop cols w O (length w) max_width) [].
+  else fold_left (fun acc kv => put (fst kv) (snd kv) acc) (resize_loop cols w O (length cols) max_width) [].
 
 Definition trim_end_spaces (s : str) : str := trim_end s.
 
